@@ -10,7 +10,9 @@ Write forms recognised (sound for these syntactic forms, blind to setattr()/glob
   `global X` + assignment; `module.attr = ...`; `Class.attr = ...` / `cls.attr = ...` / `type(self).attr = ...` /
   `self.__class__.attr = ...`; in-place mutation (append/extend/add/update/clear/pop/remove/insert/setdefault/
   popitem/discard, subscript store, del) of a module-level container, of `module.attr` / `Class.attr`, of a mutable
-  class attribute through `self.attr` when no method assigns `self.attr`, and of a mutable default argument.
+  class attribute through `self.attr` when no method assigns `self.attr`, and of a mutable default argument;
+  a METHOD decorated with functools.lru_cache / functools.cache (its memo table is process-wide, shared by all instances and
+  keyed by their __hash__ / __eq__).
 """
 from __future__ import annotations
 
@@ -142,6 +144,15 @@ class Analyzer:
                 for al in n.names:
                     local_imports[al.asname or al.name.split(".")[0]] = (al.name, None)
         is_classmethod = any(ast.unparse(d) == "classmethod" for d in fn.decorator_list)
+        for d in fn.decorator_list:
+            # a memoising decorator keeps a process-wide table next to the function (for methods it is shared by ALL instances,
+            # keyed by the arguments' __hash__ / __eq__): every call reads and writes it
+            name = ast.unparse(d.func if isinstance(d, ast.Call) else d)
+            # only METHODS: their memo is keyed by the receiver's __hash__ / __eq__, which need not tell instances of different
+            # specs apart; a memo on a module-level function of plain values cannot carry anything but the function's own results
+            if ci is not None and name.split(".")[-1] in ("lru_cache", "cache"):
+                fe.writes[("memo:" + qual, name.split(".")[-1])] = fn.lineno
+                fe.reads.add(("memo:" + qual, name.split(".")[-1]))
         defaults = {}
         a = fn.args
         params = a.posonlyargs + a.args
